@@ -33,7 +33,7 @@ COMPONENTS = {"real": ["pel.peltool.peltool.main() in-process"],
 ASSUMPTIONS = ["file names follow the BMC convention <bcd time>_<EID> and no name contains the 8-digit id of another file",
                "--src-exclude is issued together with -E and only on stores where every PEL has a primary SRC (the code applies the default class filter to it; whether the property's last sentence covers it is arguable, so exactness is tested without taking a side)",
                "a PEL without primary SRC has no reference code and is expected in no --src result"]
-PROBES = ["nested_pel", "symlinked_pel", "lookup:plid", "lookup:bmc", "lookup:id", "lookup:src", "lookup:srcx", "id_small", "id_mid", "id_max", "hidden_hit",
+PROBES = ["listing_fault_fired", "damaged_file_in_store", "nested_pel", "symlinked_pel", "lookup:plid", "lookup:bmc", "lookup:id", "lookup:src", "lookup:srcx", "id_small", "id_mid", "id_max", "hidden_hit",
           "nonserviceable_hit", "json_sibling_listed_first", "near_miss", "after_delete", "after_json", "shared_plid_hit", "hex"]
 
 
@@ -72,7 +72,18 @@ def gen_plan(rng, tier, run):
                 used.add(f["recipe"]["eid"])
                 f["sub"] = rng.choice(["archive", "archive", "old/deeper"])
                 nested.append(f)
-    plan = {"files": files, "extra": extra, "all_src": all_src, "nested": nested,
+    # damaged logs lying in the store (truncated copies): never a match for anything
+    damaged = []
+    if rng.random() < 0.3 and files:
+        for i in range(rng.randint(1, 2)):
+            src = rng.choice(files)
+            data = pelgen.build(src["recipe"])
+            damaged.append({"name": rng.choice(["00", "zz", src["name"][:20] + "~"]) + "_trunc%d" % i, "recipe": src["recipe"],
+                            # cut inside the headers or inside the first section after them: neither the summary modes nor
+                            # the full decode can make anything of it
+                            "junk": {"kind": "torn", "off": min(rng.choice([0, 30, 47, 60, 71, 72, 80, 100, 140]),
+                                                                 (pelgen.section_offsets(src["recipe"]) + [("", 0, 72)])[2][2] - 1)}})
+    plan = {"files": files, "extra": extra, "all_src": all_src, "nested": nested, "damaged": damaged,
             # the PEL directory's own name (glob metacharacters, blanks, an id) and the terminal's encoding
             "dname": rng.choice(["D"] * 6 + ["pels[node0]", "run-1[a-z]", "logs*", "what?", "a b", "%08X" % pelgen.gen_id(rng)]),
             "stdout_encoding": rng.choice(["utf-8", "utf-8", "utf-8", "ascii", "latin-1"]),
@@ -92,6 +103,9 @@ def gen_plan(rng, tier, run):
             kind = rng.choice(["plid", "plid", "bmc", "id", "id", "src", "src"] + (["srcx"] if all_src else []))
             op = {"op": kind, "order": order, "flags": [x for x in ("-P", "-r") if rng.random() < 0.15],
                   "hex": rng.random() < 0.12}
+            if rng.random() < 0.03:
+                # the directory cannot be listed at this moment (permissions / I/O error)
+                op["faults"] = [{"on": "walk", "nth": 0, "kind": "error", "errno": rng.choice(["EACCES", "EIO"])}]
             if kind != "srcx" and rng.random() < 0.15:
                 # a look-up names its PELs by id / code: class and severity options given with it must not hide a match
                 op["flags"] += rng.choice([["-O", "-S", "Predictive"], ["-H"], ["-N", "-O"], ["-s"], ["-O", "-S", "Informational", "Critical"],
@@ -216,6 +230,9 @@ def execute(plan):
         if dname != "D":
             bump("dir_name_special")
         common.put_store(w, dname, plan["files"])
+        for f in plan.get("damaged", []):
+            common.put_store(w, dname, [f])
+            bump("damaged_file_in_store")
         for f in plan.get("nested", []):
             common.put_store(w, dname + "/" + f["sub"], [f])
             bump("nested_pel")
@@ -238,7 +255,7 @@ def execute(plan):
             model = {n: pelgen.facts(recipe_of[n]) for n in present if n in recipe_of}
             others = [n for n in present if n not in recipe_of and not os.path.isdir(os.path.join(w.path(dname), n))]
             argv = argv_of(op, dname)
-            r = w.run(argv, order=op["order"], stdout_encoding=plan.get("stdout_encoding", "utf-8"))
+            r = w.run(argv, order=op["order"], stdout_encoding=plan.get("stdout_encoding", "utf-8"), faults=op.get("faults"))
             events += len(r.events)
             h.update(r.digest.encode())
             h.update(r.stdout.encode())
@@ -254,6 +271,10 @@ def execute(plan):
                 vio.append(V("bad-exit", "exit=%r exc=%r stderr=%s; %s" % (r.exit, r.exc, r.stderr[-300:], ctx)))
                 break
             bump("lookup:" + k)
+            if r.fired:
+                bump("listing_fault_fired")
+                trace.append("%s:listing-fault" % k)
+                continue            # (no traceback / bad exit was checked above; the result under the fault is not judged)
             if mutated:
                 bump("after_" + ("json" if any(n.endswith(".json") for n in others) else "delete"))
             if op.get("hex"):
